@@ -32,8 +32,9 @@
    Deliberate reading (constant StagedConflict = "retry"): a conflict in the merge of the STAGED root or of the moved HEAD
    is treated like a conflict in the working root (retryable error, rollback).  The code checks only the working root
    (validateWorkingSetForCommit: "TODO: should this validate staged as well?") and keeps "ours" for the conflicting row:
-   StagedConflict = "ours" is that behaviour as a named deviation (used by the trace configs; with it TLC reports
-   StagedMerged violated -- a dolt commit that silently lacks some of the committing session's own changes).
+   StagedConflict = "ours" is that former behaviour as a named deviation, kept only for the negative control
+   c23_neg_staged_ours.cfg (with it TLC reports StagedMerged violated -- a dolt commit that silently lacks some of the
+   committing session's own changes).  Fixed in dolt by commit 5aeba12; every config that describes the code uses "retry".
 
    C24 hook: UniqueCols is the set of columns carrying a UNIQUE index ({} in the C22/C23 configs): statement-level
    duplicate checks and the commit-time violation outcome ("constraint") are already in place. *)
